@@ -974,7 +974,7 @@ def stream_split(ctx):
     strings = [''.join(t) for n in range(maxlen + 1) for t in itertools.product(alpha, repeat=n)]
     pool = ['a', 'b', 'é', '\n', '\n', '\r', '\r\n', '\f', '\x0b', '\x1c', '\x1d', '\x1e', '\x85', ' ', ' ',
             '\t', ' ', '\\', '#', 'x = 1', '"""', BOM]
-    for _ in range(ctx.n(700, 15000)):
+    for _ in range(ctx.n(700, 5000)):
         strings.append(''.join(ctx.rng.choice(pool) for _ in range(ctx.rng.randint(3, 30))))
     cases, kept = [], []
     for i, s in enumerate(strings):
@@ -1295,7 +1295,7 @@ def pending_sources(ctx, label, items, nshards):
 
 def stream_generated(ctx):
     """tree + names + tokens streams on generated valid programs in all line-ending variants."""
-    nprog = ctx.n(10, 120)
+    nprog = ctx.n(10, 60)
     tasks, metas, sizes = [], [], []
     discarded = 0
     for pi in range(nprog):
@@ -1363,7 +1363,7 @@ def stream_generated(ctx):
 
 
 def stream_api(ctx):
-    nprog = ctx.n(10, 80)
+    nprog = ctx.n(10, 40)
     tasks, metas = [], []
     for pi in range(nprog):
         d = os.path.join(ctx.tmp, 'proj%d' % pi)
